@@ -1,5 +1,5 @@
 (* C03 property theorems: statements + `exact lemma` only. *)
-From CJ Require Import Common.Base C04.Model C03.Model C03.Proofs.
+From CJ Require Import Common.Base C04.Model C03.Model C03.Proofs C03.StatsModel C03.StatsProofs C03.ConnModel C03.ConnProofs.
 Local Open Scope nat_scope.
 
 (* A connection whose bytes (those that arrive before the deadline D) present no valid tag to the
@@ -97,3 +97,143 @@ Theorem C03_peer_close_identical :
     non_reads tr1 = non_reads tr2 /\ (forall tau, read_by tr1 tau = read_by tr2 tau).
 Proof. exact peer_close_identical. Qed.
 Print Assumptions C03_peer_close_identical.
+
+(* ================================================================== fourth wave *)
+
+(* ---- the peer / phantom ADDRESS dimension.  The whole handler (getRemoteAsIP, the GeoIP lookups,
+   then the classification) for every accepted socket whose peer address denotes an IP address - a
+   4-byte IPv4 address, an IPv4 address in its 16-byte ::ffff: form, a genuine IPv6 address; held in a
+   TCP or UDP address object or parsed from another address's string - and every phantom (IPv4 or
+   IPv6): the headline statement holds unchanged.  The GeoIP database is a parameter; the hypothesis
+   geo_total says its lookups of IP addresses do not fail. *)
+Theorem C03_every_ip_peer_no_reaction :
+  forall (reveal : bytes -> list bytes) (mark : reginfo -> bytes -> bytes) (hs_ok : reginfo -> bytes -> bool)
+         (geo_cc : bytes -> option bytes) (geo_asn : bytes -> option N)
+         (tbl : list pfx) (R : registry) (tracked : nat) (ts : list tid) (drain_cap : nat) (D : N)
+         (script : list (N * bytes)) (peer : raddr) (ip phantom : bytes),
+    geo_total geo_cc geo_asn -> remote_ip peer = Some ip -> is_ip ip ->
+    prefix_table_wfb tbl = true ->
+    paced 0%N script ->
+    ~ presents_tag reveal mark tbl R (stream_of (heard D script)) ->
+    let tr := handle geo_cc geo_asn (cwrap reveal mark hs_ok tbl R) drain_cap peer phantom D tracked ts script None in
+    only_reads_until D tr /\
+    (forall tau, (tau < D)%N -> read_by tr tau = arrived_by script tau).
+Proof. exact every_ip_peer_no_reaction. Qed.
+Print Assumptions C03_every_ip_peer_no_reaction.
+
+Theorem C03_every_ip_peer_close_answered_at_once :
+  forall (reveal : bytes -> list bytes) (mark : reginfo -> bytes -> bytes) (hs_ok : reginfo -> bytes -> bool)
+         (geo_cc : bytes -> option bytes) (geo_asn : bytes -> option N)
+         (tbl : list pfx) (R : registry) (tracked : nat) (ts : list tid) (drain_cap : nat) (D : N)
+         (script : list (N * bytes)) (tf : N) (e : rerr) (peer : raddr) (ip phantom : bytes),
+    geo_total geo_cc geo_asn -> remote_ip peer = Some ip -> is_ip ip ->
+    prefix_table_wfb tbl = true ->
+    paced_until 0%N script tf -> (tf < D)%N ->
+    ~ presents_tag reveal mark tbl R (stream_of script) ->
+    let tr := handle geo_cc geo_asn (cwrap reveal mark hs_ok tbl R) drain_cap peer phantom D tracked ts script (Some (tf, e)) in
+    only_reads_until_peer_close D tf e tr /\
+    (forall tau, read_by tr tau = arrived_by script tau).
+Proof. exact every_ip_peer_close_answered_at_once. Qed.
+Print Assumptions C03_every_ip_peer_close_answered_at_once.
+
+(* two connections that differ only in their addresses are handled identically - for every
+   WrapConnection behaviour, tagged or not *)
+Theorem C03_peer_address_irrelevant :
+  forall (geo_cc : bytes -> option bytes) (geo_asn : bytes -> option N)
+         (wrap : tid -> bytes -> wres) drain_cap D tracked ts script fin peer1 peer2 ip1 ip2 phantom1 phantom2,
+    geo_total geo_cc geo_asn ->
+    remote_ip peer1 = Some ip1 -> is_ip ip1 -> remote_ip peer2 = Some ip2 -> is_ip ip2 ->
+    handle geo_cc geo_asn wrap drain_cap peer1 phantom1 D tracked ts script fin =
+    handle geo_cc geo_asn wrap drain_cap peer2 phantom2 D tracked ts script fin.
+Proof. exact peer_address_irrelevant. Qed.
+Print Assumptions C03_peer_address_irrelevant.
+
+(* every form in which Go holds an IP address is accepted by getRemoteAsIP *)
+Theorem C03_ip_addresses_accepted :
+  forall ip, is_ip ip ->
+    remote_ip (RTcp ip) = Some ip /\ remote_ip (RUdp ip) = Some ip /\ remote_ip (ROther (Some ip)) = Some ip.
+Proof. exact ip_addresses_accepted. Qed.
+Print Assumptions C03_ip_addresses_accepted.
+
+(* the boundary: the handler returns at once (its caller closes the connection) exactly when the
+   peer address is not an IP address (a pipe in a unit test) or a GeoIP lookup fails *)
+Theorem C03_immediate_return_iff :
+  forall (geo_cc : bytes -> option bytes) (geo_asn : bytes -> option N) (wrap : tid -> bytes -> wres)
+         drain_cap peer phantom D tracked ts script fin,
+    handle geo_cc geo_asn wrap drain_cap peer phantom D tracked ts script fin = [AReturn 0%N] <->
+    (remote_ip peer = None \/ exists ip, remote_ip peer = Some ip /\ geo_lookup geo_cc geo_asn ip = None).
+Proof. exact immediate_return_iff. Qed.
+Print Assumptions C03_immediate_return_iff.
+
+(* ---- the handler's side effects on shared station state: the connStats bookkeeping.
+
+   No history of update calls and statistics epochs - whatever its order, whether or not the
+   connection it belongs to was ever counted, whether or not the per-ASN entry still exists - makes an
+   update fail: with the code's shape (every update function creates a missing entry before it
+   dereferences it) the state machine is total, from every state. *)
+Theorem C03_stats_total :
+  forall (h : list sop) (s : cstats), exists s', run_ops code_guards s h = Ok s'.
+Proof. exact run_total. Qed.
+Print Assumptions C03_stats_total.
+
+(* ... in particular every interleaving of the events of any number of connections (what their
+   Reads return, what the transports answer) with any number of epochs *)
+Theorem C03_handler_histories_total :
+  forall (es : list gev), exists s, run_ops code_guards init_stats (gevs_ops [] es) = Ok s.
+Proof. exact handler_histories_total. Qed.
+Print Assumptions C03_handler_histories_total.
+
+(* the guard is exactly what this rests on: a shape of the code is safe for all histories iff every
+   one of the 20 update functions has it; for a function without it, ONE connection that is accepted,
+   reaches the state the function leaves, sees an epoch go by and then makes that step, kills the
+   goroutine (and with it the process and every other open connection) *)
+Theorem C03_stats_total_iff_guarded :
+  forall (g : guards), (forall h, run_ops g init_stats h <> Panic) <-> (forall fn, g fn = true).
+Proof. exact total_iff_guarded. Qed.
+Print Assumptions C03_stats_total_iff_guarded.
+
+Theorem C03_unguarded_update_crashes :
+  forall (g : guards) (fn : option trans) (k : skey),
+    g fn = false -> valid_cc (k_cc k) = true -> run_ops g init_stats (crash_hist fn k) = Panic.
+Proof. exact unguarded_crashes. Qed.
+Print Assumptions C03_unguarded_update_crashes.
+
+(* conservation laws of one overall block (ipv4 / ipv6), for EVERY history from the initial state:
+   the state counters sum to (connections counted) - (connections resolved) over the whole history -
+   epochs do not touch them; total / new / resolved and every transition counter but
+   numCreatedToClose count the steps since the last epoch; numCreatedToClose is never cleared and
+   counts over the whole history; the outcome counters sum to numResolved *)
+Theorem C03_stats_block_laws :
+  forall (v : bool) (h : list sop) (s : cstats),
+    run_ops code_guards init_stats h = Ok s -> block_inv v h (fam v s).
+Proof. exact block_inv_run. Qed.
+Print Assumptions C03_stats_block_laws.
+
+(* every per-ASN entry (recreated empty after an epoch) has a valid country code and obeys:
+   totalTransitions = sum of its transition counters, numResolved = sum of its outcome counters,
+   sum of its state counters = numNewConns - numResolved (which is negative for an entry recreated
+   by a connection that was counted before the epoch) *)
+Theorem C03_stats_entry_laws :
+  forall h s v a cc c,
+    run_ops code_guards init_stats h = Ok s -> amap_find a (fam_map v s) = Some (cc, c) ->
+    valid_cc cc = true /\ entry_ok c.
+Proof. exact entries_ok. Qed.
+Print Assumptions C03_stats_entry_laws.
+
+(* epochs never change a state counter: a history and the same history without its epochs end with
+   the same Created / Reading / Checking / IODiscarding counts *)
+Theorem C03_stats_states_ignore_epochs :
+  forall h r1 r2,
+    run_ops code_guards init_stats h = Ok r1 -> run_ops code_guards init_stats (filter not_reset h) = Ok r2 ->
+    same_states r1 r2.
+Proof. exact states_ignore_epochs. Qed.
+Print Assumptions C03_stats_states_ignore_epochs.
+
+(* tie to the handler: for the updates that connections make (their projection hev_step), the state
+   counters of a family sum to the number of that family's connections still being classified *)
+Theorem C03_stats_count_connections_in_flight :
+  forall v es s,
+    fresh_opens [] es -> run_ops code_guards init_stats (gevs_ops [] es) = Ok s ->
+    sum_state (fam v s) = in_flight v (gevs_tab [] es).
+Proof. exact state_counters_count_connections. Qed.
+Print Assumptions C03_stats_count_connections_in_flight.
